@@ -299,10 +299,13 @@ def gen_many_scopes(rnd):
                 names += rnd.sample(tails, rnd.randrange(1, 3))
             names = [n for i, n in enumerate(names) if n not in names[:i]]
             for n in names:
+                # referred to as data and as a branch target (a bare number in a branch operand IS a local label)
+                bn = rnd.choice(["br", "bne", "sob", None, None])
+                br = [apm.insn(bn, *([("reg", 2)] if bn == "sob" else []), ("br", ("loc", n)))] if bn else []
                 if rnd.random() < 0.5:
-                    stmts += [apm.label(n), apm.data(".word", ("loc", n), w())]
+                    stmts += [apm.label(n), apm.data(".word", ("loc", n), w())] + br
                 else:
-                    stmts += [apm.data(".word", ("loc", n), w()), apm.label(n), apm.data(".word", w())]
+                    stmts += ([b for b in br if b.name != "sob"]) + [apm.data(".word", ("loc", n), w()), apm.label(n), apm.data(".word", w())]
         files.append(apm.SrcFile(f"f{fi}.mac", stmts))
     plant = "many-scopes"
     if rnd.random() < 0.4:
